@@ -32,6 +32,7 @@ func rulesC10(c *Ctx) {
 	c.NotDec = append(c.NotDec, "promptness and transport behaviour", "goroutines that outlive an abandoned RPC without holding a lock (listed as notes)")
 	ruleLockDiscipline(c, lockSel{classes: serverLockClasses, pkgs: []string{"server", "rib"}, blocking: true, pairing: true, noGuarded: true})
 	ruleStopSignal(c)
+	ruleCloseBySender(c, []string{"Modify", "Get"}) // a session's end cannot panic the process: channels are closed by their sender only
 	ruleTeardownReach(c)
 	ruleSessionFootprint(c)
 	ruleElectionWriters(c)
@@ -57,6 +58,8 @@ func rulesC11(c *Ctx) {
 	// Flush holds the locks of all listed instances at once: it must take them in the order of the list it is
 	// given (callers pass one name or the sorted list), never in map-iteration order (shared with C08)
 	ruleFlushScope(c)
+	ruleForwarderJoined(c)                          // every request is answered: the handler does not return while a result is being written (shared with C06)
+	ruleCloseBySender(c, []string{"Modify", "Get"}) // never panics: channels are closed by their sender only (shared with C10)
 }
 
 // chanUse summarises how a channel-typed variable is used in a function and its callees.
@@ -79,7 +82,25 @@ func (u *chanUse) add(o chanUse) {
 func chanUsesIn(p *Prog, info *types.Info, body ast.Node, ch types.Object, fn string) (chanUse, []*ast.CallExpr) {
 	var u chanUse
 	var passed []*ast.CallExpr
-	isCh := func(e ast.Expr) bool { return objOfIdent(info, e) == ch }
+	// the channel and the parameters of spliced-in helpers bound to it
+	chs := map[types.Object]bool{ch: true}
+	for changed := true; changed; {
+		changed = false
+		ast.Inspect(body, func(n ast.Node) bool {
+			if b, ok := n.(*ast.BlockStmt); ok {
+				if fr := inlineFrames[b]; fr != nil {
+					for o, arg := range fr.Binds {
+						if !chs[o] && chs[objOfIdent(info, arg)] && objOfIdent(info, arg) != nil {
+							chs[o] = true
+							changed = true
+						}
+					}
+				}
+			}
+			return true
+		})
+	}
+	isCh := func(e ast.Expr) bool { o := objOfIdent(info, e); return o != nil && chs[o] }
 	var walk func(n ast.Node, inSelect *ast.SelectStmt)
 	walk = func(n ast.Node, inSelect *ast.SelectStmt) {
 		ast.Inspect(n, func(m ast.Node) bool {
@@ -220,7 +241,7 @@ func ruleStopSignal(c *Ctx) {
 			return true
 		}
 		owner, _ := chanUsesIn(c.P, info, fi.Decl.Body, ch, fi.Name)
-		cons := consumerUses(c, fi, ch, 3, map[*types.Func]bool{})
+		cons := consumerUses(c, fi, ch, 5, map[*types.Func]bool{})
 		c.Sites++
 		// a stop channel: consumers only receive from it, and only by polling
 		if cons.recvPoll > 0 && cons.recvBlocking == 0 && cons.sendBlocking+cons.sendNonBlocking == 0 {
@@ -349,7 +370,7 @@ func ruleEntryImmutability(c *Ctx) {
 	const rule = "ENTRY-IMMUTABLE"
 	la := c.P.locks()
 	n := 0
-	var bad []string
+	var bad, badID []string
 	for _, f := range la.order {
 		if !la.reach[f] {
 			continue
@@ -371,9 +392,18 @@ func ruleEntryImmutability(c *Ctx) {
 			if nt := namedOf(fa.X.Type()); nt != nil && nt.Obj().Pkg() != nil && nt.Obj().Pkg().Path() == aftPath && strings.HasPrefix(nt.Obj().Name(), "Afts_") {
 				bad = append(bad, fnDisplay(fn)+" "+c.P.pos(st.Pos()))
 			}
+			// election ids are published by pointer (responses being serialised, election snapshots, Flush's
+			// check) and read after the election lock is released: an id object is never written after it was
+			// built — only a freshly allocated one is filled in
+			if nt := namedOf(fa.X.Type()); nt != nil && nt.Obj().Pkg() != nil && nt.Obj().Pkg().Path() == spbPath && nt.Obj().Name() == "Uint128" {
+				if _, fresh := fa.X.(*ssa.Alloc); !fresh {
+					badID = append(badID, fnDisplay(fn)+" "+c.P.pos(st.Pos()))
+				}
+			}
 		})
 	}
 	c.Sites += n
+	c.check(len(badID) == 0, rule, "server+rib", "no in-place field store to a published election id", "-", "no field store into a spb.Uint128 other than a freshly allocated one", "an election id object that readers hold by pointer outside the election lock is overwritten in place: a response being serialised, an election snapshot or Flush's check sees a torn or foreign id (data race): "+strings.Join(badID, ", "))
 	c.check(len(bad) == 0, rule, "server+rib", "no in-place field store to an AFT entry struct", "-", fmt.Sprintf("%d field stores examined in code reachable from the RPC roots, none into aft.Afts_* structs", n), "an installed AFT entry is modified in place (outside the delete-then-merge install): "+strings.Join(bad, ", "))
 }
 
@@ -516,4 +546,153 @@ func mayBlock(info *types.Info, ds *ast.DeferStmt) string {
 		return true
 	})
 	return why
+}
+
+// CLOSE-BY-SENDER — a channel of an RPC handler is closed only by the goroutine that sends on it (or when nobody
+// sends on it at all: a pure stop signal). A close in one goroutine while another may still send is a "send on
+// closed channel" panic, which is not contained by anything and takes the whole server — every session — down.
+// The goroutines of a handler are its own body and the body (or callee) of each `go` statement; sends are followed
+// through call arguments like the stop-channel uses.
+func ruleCloseBySender(c *Ctx, handlers []string) {
+	const rule = "CLOSE-BY-SENDER"
+	n := 0
+	for _, h := range handlers {
+		fi := c.need("server", "Server", h)
+		if fi == nil {
+			continue
+		}
+		info := fi.Pkg.TypesInfo
+		// the segments: the handler without its go statements, and each go statement
+		type segment struct {
+			name string
+			node ast.Node
+			fi   *FuncInfo                     // the function whose body node is (for following calls)
+			bind map[types.Object]types.Object // callee parameter → handler channel (for `go s.f(ch)`)
+		}
+		segs := []segment{{name: fi.Name, node: fi.Decl.Body, fi: fi}}
+		inspectNoFuncLit(fi.Decl.Body, func(m ast.Node) bool { return true })
+		ast.Inspect(fi.Decl.Body, func(m ast.Node) bool {
+			gs, ok := m.(*ast.GoStmt)
+			if !ok {
+				return true
+			}
+			if fl, ok := ast.Unparen(gs.Call.Fun).(*ast.FuncLit); ok {
+				segs = append(segs, segment{name: "goroutine at " + c.P.pos(gs.Pos()), node: fl.Body, fi: fi})
+				return true
+			}
+			if f, ok := calleeObj(info, gs.Call).(*types.Func); ok && isRepoPkg(f.Pkg()) {
+				if cfi := c.P.infoFor(f); cfi != nil && cfi.Decl.Body != nil {
+					b := map[types.Object]types.Object{}
+					ps := paramObjs(cfi.Pkg.TypesInfo, cfi.Decl)
+					for i, a := range gs.Call.Args {
+						if o := objOfIdent(info, a); o != nil && i < len(ps) && ps[i] != nil {
+							b[ps[i]] = o
+						}
+					}
+					segs = append(segs, segment{name: "goroutine " + cfi.Name, node: cfi.Decl.Body, fi: cfi, bind: b})
+				}
+			}
+			return true
+		})
+		// channels made by the handler
+		var chans []types.Object
+		ast.Inspect(fi.Decl.Body, func(m ast.Node) bool {
+			as, ok := m.(*ast.AssignStmt)
+			if !ok || len(as.Lhs) != 1 || len(as.Rhs) != 1 {
+				return true
+			}
+			if call, ok := ast.Unparen(as.Rhs[0]).(*ast.CallExpr); ok {
+				if id, ok := call.Fun.(*ast.Ident); ok && id.Name == "make" {
+					if o := objOfIdent(info, as.Lhs[0]); o != nil {
+						if _, isCh := o.Type().Underlying().(*types.Chan); isCh {
+							chans = append(chans, o)
+						}
+					}
+				}
+			}
+			return true
+		})
+		// uses of ch in a segment: own statements (not nested go statements) and callees the channel is passed to
+		var uses func(sinfo *types.Info, sfi *FuncInfo, node ast.Node, ch types.Object, depth int, seen map[*types.Func]bool) (sends, closes int)
+		uses = func(sinfo *types.Info, sfi *FuncInfo, node ast.Node, ch types.Object, depth int, seen map[*types.Func]bool) (sends, closes int) {
+			var walk func(n ast.Node)
+			walk = func(n ast.Node) {
+				ast.Inspect(n, func(m ast.Node) bool {
+					switch x := m.(type) {
+					case *ast.GoStmt:
+						if n != ast.Node(x) {
+							return false // another goroutine: its own segment
+						}
+					case *ast.SendStmt:
+						if objOfIdent(sinfo, x.Chan) == ch {
+							sends++
+						}
+					case *ast.CallExpr:
+						if id, ok := x.Fun.(*ast.Ident); ok && id.Name == "close" && len(x.Args) == 1 && objOfIdent(sinfo, x.Args[0]) == ch {
+							closes++
+						}
+						f, ok := calleeObj(sinfo, x).(*types.Func)
+						if !ok || !isRepoPkg(f.Pkg()) || seen[f] || depth <= 0 {
+							return true
+						}
+						for i, a := range x.Args {
+							if objOfIdent(sinfo, a) != ch {
+								continue
+							}
+							cfi := c.P.infoFor(f)
+							if cfi == nil || cfi.Decl.Body == nil {
+								continue
+							}
+							ps := paramObjs(cfi.Pkg.TypesInfo, cfi.Decl)
+							if i < len(ps) && ps[i] != nil {
+								seen[f] = true
+								s2, c2 := uses(cfi.Pkg.TypesInfo, cfi, cfi.Decl.Body, ps[i], depth-1, seen)
+								sends += s2
+								closes += c2
+							}
+						}
+					}
+					return true
+				})
+			}
+			walk(node)
+			return
+		}
+		for _, ch := range chans {
+			n++
+			c.Sites++
+			var senders, closers []string
+			for _, sg := range segs {
+				obj := ch
+				if sg.bind != nil {
+					obj = nil
+					for p, o := range sg.bind {
+						if o == ch {
+							obj = p
+						}
+					}
+					if obj == nil {
+						continue
+					}
+				}
+				s, cl := uses(sg.fi.Pkg.TypesInfo, sg.fi, sg.node, obj, 4, map[*types.Func]bool{})
+				if s > 0 {
+					senders = append(senders, sg.name)
+				}
+				if cl > 0 {
+					closers = append(closers, sg.name)
+				}
+			}
+			bad := ""
+			for _, cl := range closers {
+				for _, s := range senders {
+					if s != cl {
+						bad = fmt.Sprintf("channel %s is closed by %s while %s sends on it: a send after the close panics, and the panic of one session's goroutine takes the whole server down", ch.Name(), cl, s)
+					}
+				}
+			}
+			c.check(bad == "", rule, fi.Name, "channel "+ch.Name(), c.P.pos(ch.Pos()), fmt.Sprintf("senders: %v; closed by: %v", senders, closers), bad)
+		}
+	}
+	c.floor(rule, "channels made by the RPC handlers", n, 6)
 }
